@@ -59,11 +59,15 @@ impl Runner {
         format!("runs={}", counts.iter().map(|(k, v)| format!("{k}:{v}")).collect::<Vec<_>>().join(","))
     }
 
-    fn effect_runs(defs: &[Def], log: &[RunRec]) -> String {
+    /// `selc`: selector nodes whose runs are listed without the values read
+    fn effect_runs(defs: &[Def], selc: &[usize], log: &[RunRec]) -> String {
         let items: Vec<String> = log
             .iter()
             .filter(|r| matches!(defs.get(r.node), Some(Def::Eff(_))))
-            .map(|r| format!("{}:{}", r.node, r.treads.iter().map(|t| t.1.to_string()).collect::<Vec<_>>().join(",")))
+            .map(|r| {
+                let vals = if selc.contains(&r.node) { vec![] } else { r.treads.iter().map(|t| t.1.to_string()).collect::<Vec<_>>() };
+                format!("{}:{}", r.node, vals.join(","))
+            })
             .collect();
         format!("eruns={}", items.join(";"))
     }
@@ -194,7 +198,7 @@ impl Runner {
                 c.set_oncl();
                 "ok".into()
             }
-            ["ssig", ..] | ["slice", ..] | ["sel", ..] | ["eff", ..] | ["reff", ..] | ["seff", ..] | ["ieff", ..] | ["weff", ..]
+            ["ssig", ..] | ["slice", ..] | ["sel", ..] | ["selc", ..] | ["eff", ..] | ["reff", ..] | ["seff", ..] | ["ieff", ..] | ["weff", ..]
             | ["wieff", ..] | ["wseff", ..] | ["wsieff", ..] | ["rieff", ..] | ["imeff", ..]
                 if c.in_scope() =>
             {
@@ -275,19 +279,20 @@ impl Runner {
                     _ => "ok".into(),
                 }
             }
-            ["sel", k, rest @ ..] => {
+            ["sel", k, rest @ ..] | ["selc", k, rest @ ..] => {
+                let custom = w[0] == "selc";
                 let Ok(k) = k.parse::<usize>() else { return "bad-op".into() };
                 let mut pos = 0;
                 let Some(e) = parse_expr(rest, &mut pos) else { return "bad-op".into() };
                 let ok = {
                     let g = c.sh.lock().unwrap();
-                    pos == rest.len() && (1..=8).contains(&k) && reads_ok(&g.defs, &|i| g.is_leaf(i) || g.is_field(i), g.defs.len(), &e, true)
+                    pos == rest.len() && (1..=8).contains(&k) && (!custom || k >= 2) && reads_ok(&g.defs, &|i| g.is_leaf(i) || g.is_field(i), g.defs.len(), &e, true)
                 };
                 if !ok {
                     return "bad-op".into();
                 }
                 // like a render effect, the source runs synchronously at creation
-                c.define_sel(k, e);
+                c.define_sel_with(k, e, custom);
                 match mode {
                     Mode::C02 => format!("ok {}", self.after(mode, None)),
                     Mode::C09 => self.after(mode, None),
@@ -545,7 +550,7 @@ impl Runner {
                 let mut imms: Vec<RunRec> = log.iter().filter(|r| imm.get(r.node).copied().unwrap_or(false)).cloned().collect();
                 imms.sort_by_key(|r| r.node);
                 ordered.extend(imms);
-                let mut base = format!("{} woke={} ready={}", Self::effect_runs(&defs, &ordered), ids(&woke), ids(&c.ready()));
+                let mut base = format!("{} woke={} ready={}", Self::effect_runs(&defs, &c.sh.lock().unwrap().selc.clone(), &ordered), ids(&woke), ids(&c.ready()));
                 if oncl {
                     let mut counts: std::collections::BTreeMap<usize, usize> = Default::default();
                     for n in &cl_calls {
